@@ -254,12 +254,12 @@ def oracle(case):
                 diff = sorted(set((a - b) | (b - a)), key=repr)[:4]
                 out.bad(f"dataset-issues-differ-from-per-file-validation:warnings-{w}",
                         f"{diff}; files {sorted(files)}")
-            if not w:
-                # command-line validator: non-zero iff the list is non-empty
+            if True:
+                # command-line validator, with and without its warnings flag: non-zero iff the list is non-empty
                 from hed.scripts import hed_validator
                 argv, stdout = sys.argv, sys.stdout
                 try:
-                    sys.argv = ["hed_validator", root]
+                    sys.argv = ["hed_validator", root] + (["--check-for-warnings"] if w else [])
                     sys.stdout = io.StringIO()
                     rc = hed_validator.main()
                 except SystemExit as exc:
@@ -269,7 +269,8 @@ def oracle(case):
                 finally:
                     sys.argv, sys.stdout = argv, stdout
                 if rc != int(bool(exp_issues)):
-                    out.bad("cli-exit-status-differs", f"main() -> {rc!r}, reference issues {len(exp_issues)}")
+                    out.bad(f"cli-exit-status-differs:warnings-{w}", f"main() -> {rc!r}, reference issues "
+                                                                    f"{len(exp_issues)}; files {sorted(files)}")
     finally:
         shutil.rmtree(root, ignore_errors=True)
     return out
